@@ -84,7 +84,12 @@ func stress(rep int) {
 	defer os.RemoveAll(dir)
 	ct := &callTable{calls: map[int64]*callRec{}, count: map[string]int64{}}
 
-	tr, _ := reftracker.NewHTTP("tracker", sess.NextIP(), nil)
+	// the tracker answers every announce with a short interval and a (refusing) peer address, so that announcers
+	// hand responses to the torrent loops throughout the run while Trackers() is being polled
+	refused := &net.TCPAddr{IP: net.ParseIP(sess.NextIP()), Port: 9}
+	tr, _ := reftracker.NewHTTP("tracker", sess.NextIP(), func(a reftracker.Announce) reftracker.Reply {
+		return reftracker.Reply{Kind: "ok", Interval: reftracker.I(1), Peers: []*net.TCPAddr{refused}}
+	})
 	defer tr.Close()
 	trURL := fmt.Sprintf("http://%s/announce", tr.Addr())
 
@@ -196,6 +201,28 @@ func stress(rep int) {
 		return extras[r.Intn(len(extras))]
 	}
 	var wg sync.WaitGroup
+	// two pollers keep a tracker-list request pending at the transferring torrents (the request is served by the
+	// torrent loop through a round trip into every announcer's loop)
+	for pi := 0; pi < 2; pi++ {
+		wg.Add(1)
+		go func(pi int) {
+			defer wg.Done()
+			for i := 0; ; i++ {
+				select {
+				case <-stop:
+					return
+				default:
+				}
+				if len(tors) == 0 {
+					return
+				}
+				if t := sessions[(pi+i)%2].GetTorrent(tors[i%len(tors)].id); t != nil {
+					ct.do("Torrent.Trackers", func() { t.Trackers() })
+				}
+				time.Sleep(time.Millisecond)
+			}
+		}(pi)
+	}
 	nworkers := 8 + r.Intn(9)
 	for w := 0; w < nworkers; w++ {
 		wg.Add(1)
@@ -561,7 +588,7 @@ func (rb raceBlock) sig() string {
 
 func main() {
 	run = vx.Begin("C20", "exploration",
-		"stress children built with -race (halt_on_error=0): two sessions with RPC servers, 3 torrents transferring A->B under a download limit, ResumeWriteInterval 5 ms, 8-16 client goroutines issuing PRNG mixes of 40 API / RPC entry points (stats, peers, trackers, webseeds, files, file stats, magnet, torrent, getters, add peer by IP and host name, add tracker, start, stop, verify, announce, list, session stats, add torrent / magnet, remove, start all / stop all, compact, clean, move between sessions over RPC); race reports are parsed from the child logs and keyed by the unordered pair (outermost rain entry > innermost rain function) of the two access stacks; every call runs under a 25 s call watchdog guarded by the load canary. distinct = distinct (entry point) call kinds exercised + distinct race signatures")
+		"stress children built with -race (halt_on_error=0): two sessions with RPC servers, 3 torrents transferring A->B under a download limit, ResumeWriteInterval 5 ms, 8-16 client goroutines issuing PRNG mixes of 40 API / RPC entry points (stats, peers, trackers, webseeds, files, file stats, magnet, torrent, getters, add peer by IP and host name, add tracker, start, stop, verify, announce, list, session stats, add torrent / magnet, remove, start all / stop all, compact, clean, move between sessions over RPC), a reference tracker answering every announce with a 1 s interval and a peer address, two goroutines polling Trackers() of the transferring torrents throughout; race reports are parsed from the child logs and keyed by the unordered pair (outermost rain entry > innermost rain function) of the two access stacks; every call runs under a 25 s call watchdog guarded by the load canary. distinct = distinct (entry point) call kinds exercised + distinct race signatures")
 	vx.StartCanary()
 	if vx.ChildRole() == "stress" {
 		torrent.DisableLogging()
